@@ -1836,7 +1836,10 @@ def py_xsd_tree(d, comp):
     """the XSD tree in document order: types as the S_DT rows are listed (global ones first), classes and
     attributes in modeled order"""
     types = []
-    for scope in (lambda t: py_global(d, t['parent']), lambda t: py_contained(d, comp, t['parent'])):
+    # one simple type per data type in scope: the global ones, then those contained in the component that are not global (a
+    # type of a global package that a package of the component refers to is in both sets and is declared ONCE)
+    for scope in (lambda t: py_global(d, t['parent']),
+                  lambda t: py_contained(d, comp, t['parent']) and not py_global(d, t['parent'])):
         for t in d['dts']:
             if not scope(t):
                 continue
